@@ -404,3 +404,18 @@ pub fn known_cases() -> Vec<(&'static str, &'static str, Value)> {
         ("C02-bool-column", "layouts", serde_json::to_value(simple_case(vec![("b", FT::Bool)], vec![vec![json!(true)], vec![json!(false)], vec![json!(true)]], vec![], cmp("b", Cmp::Eq, Lit::Word("true".into())))).unwrap()),
     ]
 }
+
+/// inputs that exposed defects which have since been repaired in /repo (must pass)
+pub fn regress_cases() -> Vec<(&'static str, &'static str, Value)> {
+    let cmp = |f: &str, op: Cmp, lit: Lit| WExpr::Cmp { field: f.into(), op, lit };
+    let ints = vec![vec![json!(1)], vec![json!(2)], vec![json!(-3)], vec![json!(4)]];
+    let t0 = 1_700_000_000i64;
+    vec![
+        ("neq-on-flushed-rows", "layouts", serde_json::to_value(simple_case(vec![("x", FT::Int)], ints.clone(), vec![vec![json!(5)]], cmp("x", Cmp::Neq, Lit::Int(2)))).unwrap()),
+        ("not-eq-shares-zone", "layouts", serde_json::to_value(simple_case(vec![("x", FT::Int)], ints.clone(), vec![vec![json!(5)]], WExpr::Not(Box::new(cmp("x", Cmp::Eq, Lit::Int(2)))))).unwrap()),
+        ("string-neq", "layouts", serde_json::to_value(simple_case(vec![("s", FT::Str)], vec![vec![json!("a")], vec![json!("b")], vec![json!("c")]], vec![], cmp("s", Cmp::Neq, Lit::Str("a".into())))).unwrap()),
+        ("or-of-scanned-and-indexed-filter", "layouts", serde_json::to_value(simple_case(vec![("x", FT::Int)], ints.clone(), vec![], WExpr::Or(Box::new(cmp("x", Cmp::Neq, Lit::Int(77))), Box::new(cmp("x", Cmp::Eq, Lit::Int(4)))))).unwrap()),
+        ("time-neq", "layouts", serde_json::to_value(simple_case(vec![("t", FT::Datetime)], vec![vec![json!(t0)], vec![json!(t0)], vec![json!(t0 + 1800)]], vec![], cmp("t", Cmp::Neq, Lit::Int(t0)))).unwrap()),
+        ("enum-neq-unknown-variant", "layouts", serde_json::to_value(simple_case(vec![("e", FT::Enum(vec!["v0".into(), "v1".into()]))], vec![vec![json!("v0")], vec![json!("v1")], vec![json!("v0")]], vec![], cmp("e", Cmp::Neq, Lit::Str("V0".into())))).unwrap()),
+    ]
+}
